@@ -343,6 +343,9 @@ func (p *c05) RunCase(ctx *runner.Ctx) runner.CaseResult {
 	if op.Kind != adapt.OpUpdate {
 		op.RetCCF = adapter == "v2" && r.Intn(2) == 0 // "when requested, the failure carries the unchanged stored item": PutItem and DeleteItem too
 	}
+	// bookkeeping the caller may ask for next to the write (consumed capacity, item collection metrics): none of it
+	// changes what the condition decides or how the refusal is reported
+	op.RetCap = mon.Pick(r, []string{"", "", "TOTAL", "INDEXES", "NONE"})
 	rr := refmodel.RenderOpts{}
 	if r.Intn(3) == 0 {
 		rr.Rng = r
